@@ -494,6 +494,13 @@ theorem C15_no_state_but_setup {V : Type} [PyVal V] (ops : List (Op V)) (i : Ins
     (h : i.dag.isSetup n = false) : (runHistory i ops).res n = i.res n :=
   VM.runHistory_res_nonsetup ops i n h
 
+/-- C12 (values): a node outside the selection keeps what the instance already holds for it — the value an earlier
+    run computed (a setup result), a constant, a default — and has no value otherwise: "returned values are the real
+    values of executed or already-computed nodes and None for all others". -/
+theorem C12_unselected_nodes_keep_their_value {V : Type} [PyVal V] (i : Inst V) (sel : List TM.Node) (init : Results V)
+    (x : TM.Node) (hx : x ∉ sel) : den (runCfg i sel init) x = init x :=
+  VM.denote_notin (runCfg i sel init) _ init x (fun h => hx (VM.runCfg_nodes_sub i sel init x h))
+
 /-- C11, why reuse is harmless: in a DAG whose setup region `S` is closed under all references and holds no
     parameter (what the build-time validation enforces: a setup node depends on setup nodes and constants only),
     the value any call computes on `S` does not depend on the call's arguments. -/
